@@ -163,3 +163,20 @@ def label_perm(self_labels, other_labels):
     if set(self_labels) == set(other_labels):
         return [other_labels.index(l) for l in self_labels]
     return None
+
+
+CATS = [('duplicate rows', 'duplicate-rows'), ('_qdata_sorted=True but', 'sorted-claim'), ('charge rule', 'charge-rule'),
+        ('invalid for mod', 'qtotal-invalid'), ('qtotal has shape', 'qtotal-invalid'), ('_qdata shape', 'qdata-shape'),
+        ('has shape', 'block-shape'), ('shape (', 'shape'), ('sorted=True but', 'leg-sorted-claim'),
+        ('bunched=True but', 'leg-bunched-claim'), ('is_sorted()', 'leg-flags'), ('is_bunched()', 'leg-flags'),
+        ('is_blocked()', 'leg-flags'), ('pipe ', 'pipe'), ('leg ', 'leg'), ('not C-contiguous', 'noncontiguous'),
+        ('dtype', 'dtype')]
+
+
+def classify(msgs):
+    """stable category of WHAT is inconsistent (first match in a fixed priority order)"""
+    text = ' | '.join(msgs)
+    for needle, cat in CATS:
+        if needle in text:
+            return cat
+    return 'other'
